@@ -95,6 +95,12 @@ fn build(cfg: &Value) -> Final {
                 b.single_vlan(VlanId::try_new(VID_INNER).unwrap())
             } else if v == 2 {
                 b.double_vlan(VlanId::try_new(VID_OUTER).unwrap(), VlanId::try_new(VID_INNER).unwrap())
+            } else if v == 4 {
+                // vlan(VlanHeader::Double) supplied by the caller, ether types left as placeholders (the builder has to fill in both)
+                b.vlan(VlanHeader::Double(DoubleVlanHeader {
+                    outer: SingleVlanHeader { pcp: VlanPcp::try_new(3).unwrap(), drop_eligible_indicator: false, vlan_id: VlanId::try_new(VID_OUTER).unwrap(), ether_type: EtherType(0) },
+                    inner: SingleVlanHeader { pcp: VlanPcp::try_new(5).unwrap(), drop_eligible_indicator: true, vlan_id: VlanId::try_new(VID_INNER).unwrap(), ether_type: EtherType(0) },
+                }))
             } else {
                 // vlan(VlanHeader) with explicit pcp / dei
                 b.vlan(VlanHeader::Single(SingleVlanHeader { pcp: VlanPcp::try_new(5).unwrap(), drop_eligible_indicator: true, vlan_id: VlanId::try_new(VID_INNER).unwrap(), ether_type: EtherType(0) }))
